@@ -9,7 +9,9 @@ recipe, which the driver evaluates and compares with the library's parse(str(e))
 from checks import parsecommon as pc
 import vlib
 
-PROOF_MODULES = []   # coq/Parse/*.v are compiled directly with coqc by parsecommon.build_coq (see ORDER there)
+# built by ctx.prove (make) once coq/Parse/*.v are listed in coq/_CoqProject; until then parsecommon.prepare
+# compiles them directly with coqc (parsecommon.ORDER) and proof_modules() is empty
+PROOF_MODULES = pc.PROOF_VO
 OBLIGATIONS = ["C16/P_print_add_perm.v", "C16/P_print_add_perm_wf.v", "C16/P_print_respects_eq_refuted.v",
                "C16/P_parse_print_partial.v", "C16/P_nonvacuous.v"]
 
@@ -371,7 +373,7 @@ def nontrivial(recipe):
 def run(ctx):
     ctx.gate(["Parse", "C16"])
     drv, model = pc.prepare(ctx)
-    ctx.prove(PROOF_MODULES, OBLIGATIONS)
+    ctx.prove(pc.proof_modules(), OBLIGATIONS)
     if drv is None or model is None:
         return
     quick = ctx.tier == "quick"
